@@ -352,6 +352,49 @@ pub fn run(ctx: &Ctx) -> Outcome {
         }
         co
     });
+    // one long curve at a tolerance that needs thousands of segments: the polyline must still run all the way
+    // (structural checks only: at this size/tolerance ratio f32 evaluation of the curve is coarser than the tolerance)
+    run_cases(ctx, &mut out, SubSpec { name: "curves_needing_thousands_of_segments", cases: ctx.n(40, 1_000), exhaustive: false, max_secs: 120. }, |i, want, st| {
+        let mut rng = ctx.rng("curves_needing_thousands_of_segments", i);
+        let size = rng.range(500., 3500.) as f32;
+        let a = Point::new(rng.range(-200., 200.) as f32, rng.range(-200., 200.) as f32);
+        let p = |rng: &mut Rng| Point::new(a.x + rng.range(-1., 1.) as f32 * size, a.y + rng.range(-1., 1.) as f32 * size);
+        let end = Point::new(a.x + size, a.y + rng.range(-0.5, 0.5) as f32 * size);
+        let curve = if rng.chance(0.5) { PathOp::QuadTo(p(&mut rng), end) } else { PathOp::CubicTo(p(&mut rng), p(&mut rng), end) };
+        let after = Point::new(a.x, a.y + size);
+        let path = Path { ops: vec![PathOp::MoveTo(a), curve, PathOp::LineTo(after)], winding: Winding::NonZero };
+        let tol = *rng.pick(&[1e-5f32, 2e-5, 5e-6, 1e-4]);
+        let flat = path.flatten(tol);
+        let mut co = CaseOut::default();
+        co.hash = crate::prng::hash_str(&format!("{:?}{}", path, tol));
+        co.nontrivial = true;
+        let pts: Vec<Point> = flat.ops.iter().filter_map(|o| match o { PathOp::MoveTo(p) | PathOp::LineTo(p) => Some(*p), _ => None }).collect();
+        st.max("most_vertices_in_one_polyline", pts.len() as f64);
+        st.add("vertices", pts.len() as u64);
+        let bits = |p: Point| (p.x.to_bits(), p.y.to_bits());
+        if flat.ops.iter().any(|o| matches!(o, PathOp::QuadTo(..) | PathOp::CubicTo(..))) || pts.len() < 3 {
+            co.viol("C16", "the flattened path still contains a curve or lost its ops".to_string());
+        } else if bits(pts[0]) != bits(a) || bits(pts[pts.len() - 1]) != bits(after) || bits(pts[pts.len() - 2]) != bits(end) {
+            co.viol("C16", format!("the polyline of the curve does not end exactly at the curve's end point {:?}: the vertex before the following LineTo is {:?} ({} vertices, tolerance {})", end, pts[pts.len() - 2], pts.len(), tol));
+        } else {
+            // no chord of the curve's polyline is long: it has not skipped a stretch of the curve
+            let mut longest: f64 = 0.;
+            for k in 1..pts.len() - 1 {
+                longest = longest.max(((pts[k].x - pts[k - 1].x) as f64).hypot((pts[k].y - pts[k - 1].y) as f64));
+            }
+            st.max("longest_chord_over_size", longest / size as f64);
+            if pts.len() > 1000 && longest > 0.05 * size as f64 {
+                co.viol("C16", format!("a polyline of {} vertices contains a chord of {:.1} units on a curve of extent {}: part of the curve was skipped", pts.len(), longest, size));
+            }
+        }
+        if want || !co.violations.is_empty() {
+            let mut d = J::obj();
+            d.set("path", J::s(&path_str(&path)));
+            d.set("tolerance", J::s(&fmt_f(tol)));
+            co.desc = Some(d);
+        }
+        co
+    });
     out.assume("a vertex counts as on the curve when it is within tolerance + 1e-4 x coordinate scale of it (cubics are flattened through quadratic approximations whose points are within the tolerance of the cubic)");
     out.assume("flatten() returns a NonZero path whatever the input's winding rule; the statement is about ops and geometry, so comparisons copy the winding");
     out
